@@ -460,7 +460,7 @@ def run(ck: Check) -> None:
     ck.search_hooks.insert(0, c01_pattern.search)
     ck.search_hooks.append(c01_pattern.search_last)
     guard.campaign(ck, c01_pattern.campaign_patlit, 600 if quick else 20000)
-    guard.campaign(ck, c01_pattern.campaign_patterns, 6 if quick else 400)
+    guard.campaign(ck, c01_pattern.campaign_patterns, 6 if quick else 250)
     guard.campaign(ck, _campaign_templates, quick)
     guard.campaign(ck, tpl_search.self_test)
     probe, PROBE = PROBE, None
